@@ -2,18 +2,24 @@
 # run every kept seeded change against the checks that should notice it (quick tier); log to seeded/matrix.log
 cd /verif
 : > seeded/matrix.log
-run() { S=$1; shift; tools/run_seed.sh $S "$@" 2>&1 | grep -E "^===|VIOLATION|SUMMARY|ERROR|not clean|does not apply" | cut -c1-220 >> seeded/matrix.log; }
+run() { S=$1; shift; TMO=3400 tools/run_seed.sh $S "$@" 2>&1 | grep -E "^===|VIOLATION|SUMMARY|ERROR|not clean|does not apply" | cut -c1-220 >> seeded/matrix.log; }
 run C01 C01
+run C01b C01
 run C02 C02
+run C02b C02
 run C03 C03 C04
+run C03b C03
 run C04 C04
 run C05 C05
+run C05b C05
 run C06 C06
 run C07 C07
 run C08 C08 C14
 run C09 C09
+run C13b C13
 run C14 C14 C15
 run C15 C15
+run C17b C17
 run C18 C18
 run C19 C19
 run C20 C20
